@@ -265,14 +265,14 @@ impl SourceView {
 
             let mut off_end = off;
             for c in char_iter {
-                if idx >= (col + span) as usize {
+                if idx >= col as usize + span as usize {
                     break;
                 }
                 off_end += c.len_utf8();
                 idx += c.len_utf16();
             }
 
-            if idx < ((col + span) as usize) {
+            if idx < col as usize + span as usize {
                 None
             } else {
                 line.get(off..off_end)
